@@ -12,6 +12,23 @@ LEVEL = "proof"
 THEOREMS = ["miss_superset", "inc_eq_clean", "warnings_once"]
 
 
+SCRIPTED = [
+    # a warning in a file that stays cached, re-checked three times (cached diagnostics must survive
+    # every warm run; the global post-pass re-derives part of them fresh)
+    [(["warn+"], "check"), ([], "check"), ([], "check"), ([], "check"), (["ws"], "build"), ([], "build")],
+    # a dependency that did not exist when the depended-on file's cache entry was written: alone.veryl
+    # starts instantiating Leaf, then Leaf's default port value changes (dependents of a RESTORED file)
+    [(["leaf_default"], "build"), (["new_dep"], "build"), (["leaf_default"], "build"), (["leaf_default"], "check"),
+     (["leaf_default"], "build")],
+    # same through a package constant first used in a later build
+    [(["use_z"], "build"), (["pkg_rm_const"], "build"), (["pkg_rm_const"], "build"), (["const"], "build")],
+    # error introduced and repaired while other files carry warnings
+    [(["warn+"], "build"), (["err+"], "build"), (["err-"], "build"), ([], "check"), (["warn-"], "check")],
+    # rename/move/delete/restore chain
+    [(["move"], "build"), (["delete"], "build"), (["restore"], "build"), (["rename_leaf"], "build"), (["fix_mid"], "build")],
+]
+
+
 def predict_request(root, cmd, key_valid):
     """The model's inputs, read from the real project directory before a warm run: manifest,
     current content hashes (computed by the real `content_hash` via `hx hash`), output freshness
@@ -84,6 +101,10 @@ def run_history(args):
     """One edit history on a warm tree; after every command the same command is run on a copy of
     the tree with a fresh cache (the property's reference).  Returns a list of step records."""
     seed, nsteps, base = args
+    script = None
+    if isinstance(seed, tuple):          # scripted history: (index, [(edit names, command), …])
+        seed, script = seed
+        nsteps = len(script)
     rng = random.Random(seed)
     root = f"{base}/h{seed}/warm"
     cache_home = f"{base}/xdg"
@@ -97,12 +118,18 @@ def run_history(args):
     key_toml = proj.effective_build(opts)       # [build] section the on-disk manifest's global key belongs to
     for s in range(nsteps):
         names = []
-        for _ in range(rng.choice([1, 1, 2])):
-            name, fn = rng.choice(proj.EDITS)
-            fn(files, opts, rng)
-            names.append(name)
+        if script is not None:
+            edits = dict(proj.EDITS)
+            for name in script[s][0]:
+                edits[name](files, opts, rng)
+                names.append(name)
+        else:
+            for _ in range(rng.choice([1, 1, 2])):
+                name, fn = rng.choice(proj.EDITS)
+                fn(files, opts, rng)
+                names.append(name)
         damage = None
-        if rng.random() < 0.15:
+        if script is None and rng.random() < 0.15:
             outs = sorted(k for k in proj.snapshot(root) if k.endswith(".sv"))
             if outs:
                 victim = rng.choice(outs)
@@ -110,7 +137,7 @@ def run_history(args):
                 damage = f"rm {victim}"
                 names.append(damage)
         proj.sync_tree(root, files, opts)
-        cmd = rng.choice(["build", "build", "check"])
+        cmd = script[s][1] if script is not None else rng.choice(["build", "build", "check"])
         # reference: same tree, fresh cache
         clean_root = f"{base}/h{seed}/clean{s}/warm"   # same leaf name => same relative layout
         shutil.rmtree(os.path.dirname(clean_root), ignore_errors=True)
@@ -228,6 +255,8 @@ def run(ctx):
     ns = tier_n(ctx, 6, 12)
     rng = random.Random(ctx.seed)
     jobs = [(rng.randrange(1 << 30), ns, base) for _ in range(nh)]
+    # scripted histories (always run): multi-step shapes that random histories reach only rarely
+    jobs += [((i + 1, sc), 0, base) for i, sc in enumerate(SCRIPTED)]
     with ThreadPoolExecutor(max_workers=16) as ex:
         results = list(ex.map(run_history, jobs))
     shutil.rmtree(base, ignore_errors=True)
